@@ -16,3 +16,89 @@ register(CTransaction, nVersion=Int, vin=TupleOf(Obj(CTxIn)), vout=TupleOf(Obj(C
          wit=Obj(CTxWitness))
 register(CBlockHeader, nVersion=Int, hashPrevBlock=Bytes, hashMerkleRoot=Bytes, nTime=Int, nBits=Int, nNonce=Int)
 register(CBlock, vtx=TupleOf(Obj(CTransaction)), vMerkleTree=TupleOf(Bytes), vWitnessMerkleTree=TupleOf(Bytes))
+
+
+# ---- generators of concrete objects for the run-time contract monitor / bounded stand-in ----
+from pyvc import replay as _replay
+
+
+def _b(rng, n=None, choices=(0, 1, 2, 3, 20, 32, 75, 76, 252, 253, 254, 255, 256)):
+    if n is None:
+        n = rng.choice(choices) if rng.random() < 0.5 else rng.randint(0, 40)
+    return {'__bytes__': [rng.getrandbits(8) if rng.random() < 0.8 else 0 for _ in range(n)], 'cls': 'builtins:bytes'}
+
+
+def _script(rng):
+    d = _b(rng)
+    d['cls'] = 'bitcoin.core.script:CScript'
+    return d
+
+
+def _u32(rng):
+    return rng.choice([0, 1, 0x7fffffff, 0x80000000, 0xfffffffe, 0xffffffff, rng.getrandbits(32)])
+
+
+def gen_outpoint(rng, cls='bitcoin.core:COutPoint'):
+    return {'__obj__': cls, 'args': [_b(rng, 32), _u32(rng)]}
+
+
+def gen_txin(rng, cls='bitcoin.core:CTxIn'):
+    op = gen_outpoint(rng, 'bitcoin.core:CMutableOutPoint' if 'Mutable' in cls else 'bitcoin.core:COutPoint')
+    return {'__obj__': cls, 'args': [op, _script(rng), _u32(rng)]}
+
+
+def gen_txout(rng, cls='bitcoin.core:CTxOut'):
+    v = rng.choice([0, 1, -1, 21 * 10**14, 21 * 10**14 + 1, 2**63 - 1, -2**63, rng.getrandbits(50)])
+    return {'__obj__': cls, 'args': [v, _script(rng)]}
+
+
+def gen_wstack(rng):
+    n = rng.choice([0, 0, 1, 2, 3])
+    items = [_b(rng, rng.choice([0, 0, 1, 2, 33, 72])) for _ in range(n)]
+    return {'__obj__': 'bitcoin.core.script:CScriptWitness', 'args': [{'__tuple__': items}]}
+
+
+def gen_txinwit(rng):
+    return {'__obj__': 'bitcoin.core:CTxInWitness', 'args': [gen_wstack(rng)]}
+
+
+def gen_txwitness(rng, n=None):
+    if n is None:
+        n = rng.randint(0, 3)
+    return {'__obj__': 'bitcoin.core:CTxWitness', 'args': [{'__tuple__': [gen_txinwit(rng) for _ in range(n)]}]}
+
+
+def gen_tx(rng, cls='bitcoin.core:CTransaction', min_in=0):
+    mut = 'Mutable' in cls
+    nin = rng.randint(min_in, 3)
+    nout = rng.randint(0, 3)
+    vin = [gen_txin(rng, 'bitcoin.core:CMutableTxIn' if mut else 'bitcoin.core:CTxIn') for _ in range(nin)]
+    vout = [gen_txout(rng, 'bitcoin.core:CMutableTxOut' if mut else 'bitcoin.core:CTxOut') for _ in range(nout)]
+    wit = gen_txwitness(rng, rng.choice([0, nin]))
+    ver = rng.choice([1, 2, -1, 2**31 - 1, -2**31, rng.getrandbits(31)])
+    seq = {'__list__': vin} if mut else {'__tuple__': vin}
+    seqo = {'__list__': vout} if mut else {'__tuple__': vout}
+    return {'__obj__': cls, 'args': [seq, seqo, _u32(rng), ver, wit]}
+
+
+def gen_header(rng, cls='bitcoin.core:CBlockHeader'):
+    return {'__obj__': cls, 'args': [rng.choice([1, 2, -1, rng.getrandbits(31)]), _b(rng, 32), _b(rng, 32),
+                                    _u32(rng), _u32(rng), _u32(rng)]}
+
+
+def gen_block(rng):
+    ntx = rng.choice([0, 1, 2, 3, 5])
+    zero = {'__bytes__': [0] * 32, 'cls': 'builtins:bytes'}
+    return {'__obj__': 'bitcoin.core:CBlock', 'args': [rng.choice([1, 2, -1]), _b(rng, 32), zero, _u32(rng),
+                                                     _u32(rng), _u32(rng),
+                                                     {'__tuple__': [gen_tx(rng, min_in=1) for _ in range(ntx)]}]}
+
+
+_replay.BUILDERS.update({
+    COutPoint: gen_outpoint, CMutableOutPoint: lambda r: gen_outpoint(r, 'bitcoin.core:CMutableOutPoint'),
+    CTxIn: gen_txin, CMutableTxIn: lambda r: gen_txin(r, 'bitcoin.core:CMutableTxIn'),
+    CTxOut: gen_txout, CMutableTxOut: lambda r: gen_txout(r, 'bitcoin.core:CMutableTxOut'),
+    CScriptWitness: gen_wstack, CTxInWitness: gen_txinwit, CTxWitness: gen_txwitness,
+    CTransaction: gen_tx, CMutableTransaction: lambda r: gen_tx(r, 'bitcoin.core:CMutableTransaction'),
+    CBlockHeader: gen_header, CBlock: gen_block,
+})
